@@ -3,7 +3,7 @@ import VibeProof.Model.Index
 State machine of ONE stored table with its constraint hash indexes, the user-defined indexes
 of the registry that name it, and the transaction / savepoint machinery
 (C15, C13, C14).  Every step is written as the executors sequence the storage calls
-(after the `fix:` commits d0a53f8a, b9e81ca0, b0911378, a2743cd5):
+(after the `fix:` commits d0a53f8a, b9e81ca0, b0911378, a2743cd5, ee88b7d7, e4da8cb8):
 
   INSERT            Database::insert_row / insert_rows_batch: Table::insert (push,
                     update_for_insert), add_to_indexes_for_insert, record_change(Insert)
@@ -20,10 +20,10 @@ of the registry that name it, and the transaction / savepoint machinery
   ROLLBACK          tables restored from the snapshot, registry index DATA rebuilt from the
                     restored rows, registry index SET left as it is
   SAVEPOINT n       push (n, changes.len())
-  ROLLBACK TO n     first savepoint named n; changes.drain(idx..) undone newest first with
+  ROLLBACK TO n     most recent savepoint named n; changes.drain(idx..) undone newest first with
                     Table::remove_row (first equal row; hash rebuild); later savepoints dropped;
                     user-defined indexes rebuilt if anything was undone
-  RELEASE n         first savepoint named n removed
+  RELEASE n         most recent savepoint named n removed
 -/
 namespace VibeProof.TSM
 open VibeProof VibeProof.Idx
@@ -141,8 +141,14 @@ def undoAll (hs : List HIdx) (rows : List Row) : List Row → List Row × List H
       undoAll (hRebuildAll hs rows') rows' rest
     else (rows, hs, false)
 
-def findSave (saves : List (String × Nat)) (n : String) : Option Nat :=
-  saves.findIdx? (fun sp => sp.1 == n)
+/-- `savepoints.iter().rposition(|sp| sp.name == name)`: the most recent savepoint of that name
+(fix e4da8cb8; before it the first one was taken) -/
+def findSave : List (String × Nat) → String → Option Nat
+  | [], _ => none
+  | sp :: rest, n =>
+    match findSave rest n with
+    | some j => some (j + 1)
+    | none => if sp.1 = n then some 0 else none
 
 def step (s : TState) : Op → TState × Option TErr
   | .insert rs => (insertMany s rs, none)
